@@ -485,3 +485,127 @@ theorem getBuiltin_wf (key : String) : (getBuiltin key).WF := by
       simp [registeredByName, ht, Dtype.WF, hok]
 
 end Occa.Dtype
+
+/-! ### whatever fromJson accepts is well formed -/
+namespace Occa.Dtype
+open Occa
+
+theorem enumGo_nodup : ∀ (l : List Json) (acc r : List String), enumGo l acc = .ok r → acc.Nodup → r.Nodup
+  | [], acc, r, h, ha => by
+      simp [enumGo, pure, Except.pure] at h; subst h; exact ha
+  | e :: l, acc, r, h, ha => by
+      unfold enumGo at h
+      split at h
+      · simp [throw, throwThe, MonadExceptOf.throw] at h
+      · split at h
+        · rename_i s _
+          split at h
+          · simp [throw, throwThe, MonadExceptOf.throw] at h
+          · rename_i hc
+            have hn : s ∉ acc := by simpa using hc
+            exact enumGo_nodup l (acc ++ [s]) r h (by
+              rw [List.nodup_append]
+              refine ⟨ha, by simp, ?_⟩
+              intro a ha' b hb hab
+              simp at hb; subst hb; subst hab; exact hn ha')
+        · simp [throw, throwThe, MonadExceptOf.throw] at h
+
+theorem Fields.wf_append : (acc g : Fields) → acc.WF → g.WF → (acc.append g).WF
+  | .nil, g, _, hg => by simpa [Fields.append] using hg
+  | .cons n e r, g, h, hg => by
+      have h' : e.WF ∧ r.WF := by simpa [Fields.WF] using h
+      simpa [Fields.append, Fields.WF] using ⟨h'.1, Fields.wf_append r g h'.2 hg⟩
+
+theorem Fields.wf_append_one (acc : Fields) (s : String) (d : Dtype) (h1 : acc.WF) (h2 : d.WF) :
+    (acc.snoc s d).WF := by
+  rw [Fields.snoc_eq_append]
+  exact Fields.wf_append acc _ h1 (by simp [Fields.WF, h2])
+
+theorem fieldsGo_wf (dec : Json → Except Err Dtype) (hdec : ∀ j d, dec j = .ok d → d.WF) :
+    ∀ (l : List Json) (acc r : Fields), fieldsGo dec l acc = .ok r → acc.WF → acc.names.Nodup →
+      r.WF ∧ r.names.Nodup
+  | [], acc, r, h, h1, h2 => by
+      simp [fieldsGo, pure, Except.pure] at h; subst h; exact ⟨h1, h2⟩
+  | f :: l, acc, r, h, h1, h2 => by
+      unfold fieldsGo at h
+      split at h
+      · simp [throw, throwThe, MonadExceptOf.throw] at h
+      · split at h
+        · simp [throw, throwThe, MonadExceptOf.throw] at h
+        · split at h
+          · rename_i s _
+            split at h
+            · simp at h
+            · rename_i d hd
+              split at h
+              · simp [throw, throwThe, MonadExceptOf.throw] at h
+              · rename_i hc
+                have hn : s ∉ acc.names := by simpa using hc
+                refine fieldsGo_wf dec hdec l (acc.snoc s d) r h (Fields.wf_append_one acc s d h1 (hdec _ _ hd)) ?_
+                rw [Fields.snoc_eq_append, Fields.names_append]
+                rw [List.nodup_append]
+                refine ⟨h2, by simp [Fields.names], ?_⟩
+                intro a ha b hb hab
+                simp [Fields.names] at hb; subst hb; subst hab; exact hn ha
+          · simp [throw, throwThe, MonadExceptOf.throw] at h
+
+theorem fieldsFromJson_wf (dec : Json → Except Err Dtype) (hdec : ∀ j d, dec j = .ok d → d.WF)
+    (j : Json) (r : Fields) (h : fieldsFromJson dec j = .ok r) : r.WF ∧ r.names.Nodup := by
+  unfold fieldsFromJson at h
+  split at h
+  · simp [throw, throwThe, MonadExceptOf.throw] at h
+  · split at h
+    · simp [throw, throwThe, MonadExceptOf.throw] at h
+    · exact fieldsGo_wf dec hdec _ .nil r h (by simp [Fields.WF]) (by simp [Fields.names])
+
+/-- every dtype `fromJson` returns, for ANY json value and fuel, is well formed -/
+theorem Dtype.fromJson_wf : ∀ (fuel : Nat) (j : Json) (d : Dtype), Dtype.fromJson fuel j = .ok d → d.WF
+  | 0, _, _, h => by simp [Dtype.fromJson] at h
+  | fuel + 1, j, d, h => by
+      have ih := Dtype.fromJson_wf fuel
+      unfold Dtype.fromJson at h
+      simp only at h
+      split at h
+      · split at h
+        · simp [throw, throwThe, MonadExceptOf.throw] at h
+        · simp [pure, Except.pure] at h; subst h; exact getBuiltin_wf _
+      · split at h
+        · split at h
+          · simp at h
+          · rename_i es hes
+            simp [pure, Except.pure] at h; subst h
+            unfold enumFromJson at hes
+            split at hes
+            · simp [throw, throwThe, MonadExceptOf.throw] at hes
+            · split at hes
+              · simp [throw, throwThe, MonadExceptOf.throw] at hes
+              · simpa [Dtype.WF] using enumGo_nodup _ [] es hes (by simp)
+        · split at h
+          · split at h
+            · simp at h
+            · rename_i fs hfs
+              simp [pure, Except.pure] at h; subst h
+              simpa [Dtype.WF] using fieldsFromJson_wf _ ih j fs hfs
+          · split at h
+            · split at h
+              · simp [throw, throwThe, MonadExceptOf.throw] at h
+              · split at h
+                · simp [throw, throwThe, MonadExceptOf.throw] at h
+                · split at h
+                  · simp [throw, throwThe, MonadExceptOf.throw] at h
+                  · split at h
+                    · simp at h
+                    · rename_i e he
+                      simp [pure, Except.pure] at h; subst h
+                      simpa [Dtype.WF] using ih _ _ he
+            · split at h
+              · split at h
+                · simp at h
+                · rename_i fs hfs
+                  simp [pure, Except.pure] at h; subst h
+                  simpa [Dtype.WF] using fieldsFromJson_wf _ ih j fs hfs
+              · split at h
+                · simp [pure, Except.pure] at h; subst h; simp [Dtype.WF]
+                · simp [throw, throwThe, MonadExceptOf.throw] at h
+
+end Occa.Dtype
